@@ -73,3 +73,34 @@ def random_grammars(n, n_prods=(4, 5), max_rhs=3, nts=("S", "A", "B"), ts=("a", 
         seen.add(prods)
         out.append(prods)
     return out
+
+
+# ---- rule-order dimension ----------------------------------------------------------------------------
+# Fixpoint computations over the grammar (FIRST, FOLLOW, look-ahead propagation) iterate over rules in
+# declaration order; the exhaustive Gamma scopes fix that order, so a family of four-nonterminal
+# grammars is explored under EVERY order of the non-start rules.
+ORDER_BASES = [
+    (("S", ("A", "a")), ("S", ("B", "b")), ("A", ("B",)), ("B", ("C",)), ("C", ("b",))),
+    (("S", ("A", "a")), ("A", ("B",)), ("B", ("C",)), ("C", ("b",)), ("C", ())),
+    (("S", ("a", "A")), ("S", ("b", "B", "a")), ("A", ("b", "B")), ("B", ("a", "C")), ("C", ("b",)), ("C", ())),
+    (("S", ("A", "B", "C")), ("A", ("a",)), ("A", ()), ("B", ("b",)), ("B", ()), ("C", ("a", "b")), ("C", ())),
+    (("S", ("C", "a")), ("S", ("B", "b")), ("C", ("B",)), ("B", ("A",)), ("A", ("a",)), ("A", ("A", "b"))),
+]
+
+
+def rule_orders():
+    import itertools
+    out = []
+    for base in ORDER_BASES:
+        nts = []
+        for l, _ in base:
+            if l not in nts:
+                nts.append(l)
+        rest = [n for n in nts if n != "S"]
+        for perm in itertools.permutations(rest):
+            order = ["S"] + list(perm)
+            g = tuple(sorted(base, key=lambda p: order.index(p[0])))
+            terms = sorted({x for _, r in g for x in r if x.islower()})
+            assert CFG(g, {t: lit(t) for t in terms}).is_reduced()
+            out.append(tuple((l, tuple(r)) for l, r in g))
+    return out
